@@ -57,7 +57,7 @@ var baseWeights = map[string]int{
 	"propose": 8, "proposebatch": 1, "proposeconf": 2, "transfer": 1, "readindex": 2,
 	"campaign": 1, "forget": 1, "unreachable": 1, "reportsnap": 3, "compact": 1,
 	"crash": 1, "restart": 4, "isolate": 1, "blocklink": 1, "heal": 2,
-	"duprecent": 2, "diverge": 1, "proposemixed": 1, "burst": 3, "slowdisk": 2, "lagcompact": 1, "stallelect": 1, "hold": 1, "release": 2, "snaprace": 0, "snapunavail": 1, "comeback": 1, "crashrecampaign": 1,
+	"duprecent": 2, "diverge": 1, "proposemixed": 1, "burst": 3, "slowdisk": 2, "lagcompact": 1, "stallelect": 1, "hold": 1, "release": 2, "snaprace": 0, "snapunavail": 1, "comeback": 1, "crashrecampaign": 1, "snapthenapp": 0,
 }
 
 func mkProfile(name string, over map[string]int, f func(p *Profile)) *Profile {
@@ -81,10 +81,14 @@ var Profiles = map[string]*Profile{
 	"elect": mkProfile("elect", map[string]int{"tick": 20, "tickall": 10, "tickcampaign": 6, "campaign": 4, "transfer": 4,
 		"dup": 6, "crash": 3, "restart": 8, "propose": 4, "forget": 2, "isolate": 3, "comeback": 3, "crashrecampaign": 3}, func(p *Profile) { p.PPreVote, p.PCheckQuorum = 50, 50 }),
 	"crash": mkProfile("crash", map[string]int{"comeback": 2, "crashrecampaign": 4, "stallelect": 3, "crash": 6, "restart": 14, "step": 30, "service": 15, "propose": 10}, func(p *Profile) { p.PAsync = 60 }),
-	"snap": mkProfile("snap", map[string]int{"compact": 8, "lagcompact": 5, "snaprace": 4, "hold": 2, "isolate": 4, "heal": 4, "propose": 12, "proposeconf": 3, "dup": 5,
+	"snap": mkProfile("snap", map[string]int{"snapthenapp": 3, "diverge": 3, "compact": 8, "lagcompact": 5, "snaprace": 4, "hold": 2, "isolate": 4, "heal": 4, "propose": 12, "proposeconf": 3, "dup": 5,
 		"reportsnap": 6, "crash": 2}, func(p *Profile) { p.PJoiner = 60 }),
 	"conf": mkProfile("conf", map[string]int{"proposeconf": 10, "tickcampaign": 4, "campaign": 3, "crash": 2, "restart": 6,
 		"isolate": 3, "compact": 3, "step": 20}, func(p *Profile) { p.PJoiner = 70; p.PNoCCVal = 15 }),
+	// confread: membership changes with reads issued while configurations are
+	// joint (explicit joint changes stay joint until somebody proposes to leave)
+	"confread": mkProfile("confread", map[string]int{"proposeconf": 8, "readindex": 12, "isolate": 4, "blocklink": 3, "heal": 3, "tickcampaign": 3, "campaign": 2,
+		"crash": 2, "restart": 6, "step": 20, "comeback": 2}, func(p *Profile) { p.PJoiner = 50; p.PLease = 0; p.PFive = 30 }),
 	"read": mkProfile("read", map[string]int{"comeback": 4, "readindex": 14, "isolate": 4, "heal": 3, "tickcampaign": 4, "campaign": 3, "proposeconf": 4,
 		"crash": 3, "restart": 8, "dup": 4, "step": 20}, func(p *Profile) { p.PLease = 0; p.PSingle = 25 }),
 	"flow": mkProfile("flow", map[string]int{"comeback": 2, "propose": 25, "proposebatch": 6, "drop": 8, "unreachable": 4, "dup": 4, "step": 15},
@@ -93,7 +97,7 @@ var Profiles = map[string]*Profile{
 		"dup": 4, "isolate": 2}, func(p *Profile) { p.AllowZeroApplyQuota = true }),
 	// asnap: asynchronous storage threads that stall, combined with frequent
 	// compaction (snapshots) and frequent leader changes.
-	"asnap": mkProfile("asnap", map[string]int{"compact": 10, "slowdisk": 8, "lagcompact": 6, "stallelect": 5, "snaprace": 4, "hold": 2, "transfer": 6, "tickcampaign": 5, "campaign": 3, "propose": 12,
+	"asnap": mkProfile("asnap", map[string]int{"snapthenapp": 3, "diverge": 3, "compact": 10, "slowdisk": 8, "lagcompact": 6, "stallelect": 5, "snaprace": 4, "hold": 2, "transfer": 6, "tickcampaign": 5, "campaign": 3, "propose": 12,
 		"isolate": 3, "heal": 4, "step": 10, "burst": 5, "reportsnap": 6, "dup": 4}, func(p *Profile) { p.PAsync = 90; p.PJoiner = 50 }),
 	// det: union profile with large groups (sets of more than 7 ids are
 	// iterated through different code paths) for the determinism check.
@@ -105,7 +109,7 @@ var Profiles = map[string]*Profile{
 	"crashbase": mkProfile("crashbase", map[string]int{"comeback": 0, "crashrecampaign": 0, "service": 0, "stabilize": 0, "step": 60, "deliver": 40, "crash": 0, "restart": 0,
 		"propose": 12, "tick": 10, "tickall": 6, "diverge": 0, "lagcompact": 0, "stallelect": 0, "burst": 2, "slowdisk": 1, "compact": 2,
 		"proposeconf": 2, "dup": 3, "drop": 2}, func(p *Profile) { p.PAsync = 50 }),
-	"live": mkProfile("live", map[string]int{"proposeconf": 5, "compact": 3, "crash": 3, "restart": 4, "readindex": 2, "transfer": 3,
+	"live": mkProfile("live", map[string]int{"snapthenapp": 2, "lagcompact": 2, "proposeconf": 5, "compact": 3, "crash": 3, "restart": 4, "readindex": 2, "transfer": 3,
 		"dup": 3, "isolate": 3, "drop": 6, "propose": 12, "unreachable": 2}, func(p *Profile) { p.AllowZeroApplyQuota = true; p.PTinyLimits = 40 }),
 }
 
@@ -476,6 +480,7 @@ func (s *Sim) RandomAction(p *Profile) {
 		f.Held = false
 	})
 	add("snaprace", len(up) >= 2, func() { s.SnapshotRace(p) })
+	add("snapthenapp", len(up) >= 2, func() { s.SnapThenAppend(p) })
 	add("diverge", len(up) >= 3, func() { s.Diverge(p) })
 	add("comeback", s.comebackFeasible(), func() { s.Comeback(p) })
 	add("crashrecampaign", len(up) >= 3, func() { s.CrashRecampaign(p) })
@@ -918,6 +923,15 @@ func (s *Sim) Diverge(p *Profile) {
 		}
 	}
 	k := d.Int(1, 4, "oldprops")
+	// the deposed leader's append thread may lag: its divergent tail is then
+	// still unstable when the new leader's appends or snapshot arrive
+	stallOld := d.Int(0, 2, "stallold") == 0 && leader.Opts.Async
+	if stallOld {
+		leader.SlowAppend = true
+		s.Stats.inc("async.stalled")
+		k += d.Int(0, 3, "moreold")
+		defer func() { leader.SlowAppend = false }()
+	}
 	for i := 0; i < k && leader.Up; i++ {
 		s.Propose(leader, s.drawSize(p))
 	}
@@ -955,6 +969,14 @@ func (s *Sim) Diverge(p *Profile) {
 	}
 	if d.Int(0, 3, "heal") > 0 {
 		s.Heal()
+		if stallOld {
+			// the new leader reaches the old one while its tail is unstable
+			for i := 0; i < 2*cand.Opts.HeartbeatTick && cand.Up; i++ {
+				s.tick(cand)
+			}
+			s.stabilize(5)
+			s.Stats.inc("macro.diverge_unstable_tail")
+		}
 	}
 }
 
